@@ -29,7 +29,7 @@ def plan(tier, seed):
         for align in ("none", "axisangle", "dpd"):
             cases.append({"reaction": {"kind": "fixture", "name": name}, "align": align, "dynamics": "bw", "seed": int(rng.integers(1 << 30)),
                           "cost": {"none": 4.0, "axisangle": 25.0, "dpd": 10.0}[align]})
-    for k in range(6 if tier == "quick" else 60):
+    for k in range(12 if tier == "quick" else 90):
         for align in ("axisangle", "dpd"):
             cases.append({"reaction": {"kind": "synth_multi", "seed": int(rng.integers(1 << 30)), "half_integer": k % 3 == 2}, "align": align, "dynamics": "bw",
                           "seed": int(rng.integers(1 << 30)), "cost": 30.0 if align == "axisangle" else 8.0})
